@@ -11,7 +11,7 @@ import pyref
 FAMILY = "cpc"
 CORR = "Cpc"               # Coq module DS.Corr.Cpc
 FAMNUM = 7
-ORACLES = {"prop_ok": 0, "union_ok": 1}
+ORACLES = {"prop_ok": 0, "union_ok": 1, "extremes_ok": 2}
 GEN_MODULES = [("GenCpc",
                 ["cpc/mod.rs", "cpc/sketch.rs", "cpc/pair_table.rs", "cpc/kxp_byte_lookup.rs", "common/inv_pow2_table.rs"],
                 ["MIN_LG_K", "MAX_LG_K", "KXP_BYTE_TABLE", "INVERSE_POWERS_OF_2",
@@ -21,13 +21,19 @@ GEN_MODULES = [("GenCpc",
                 {"cpc/mod.rs": ["determine_flavor", "determine_correct_offset"],
                  "cpc/sketch.rs": ["update", "row_col_update", "update_hip", "update_sparse", "promote_sparse_to_windowed",
                                    "update_windowed", "move_window", "refresh_kxp", "build_bit_matrix"]}),
+               ("GenCpcPhase", ["cpc/compression.rs"], ["LIT_determine_pseudo_phase"],
+                {"cpc/compression.rs": ["determine_pseudo_phase"]}),
+               ("GenCpcTables", ["cpc/compression_data.rs"],
+                ["LENGTH_LIMITED_UNARY_ENCODING_TABLE65", "LENGTH_LIMITED_UNARY_DECODING_TABLE65",
+                 "COLUMN_PERMUTATIONS_FOR_ENCODING", "COLUMN_PERMUTATIONS_FOR_DECODING",
+                 "ENCODING_TABLES_FOR_HIGH_ENTROPY_BYTE", "DECODING_TABLES_FOR_HIGH_ENTROPY_BYTE"], {}),
                ("GenCpcUnion", ["cpc/union.rs"],
                 ["LIT_to_sketch", "LIT_reduce_k", "LIT_or_window_into_matrix", "LIT_or_table_into_matrix",
                  "LIT_or_matrix_into_matrix", "LIT_walk_table_updating_sketch"],
                 {"cpc/union.rs": ["to_sketch", "reduce_k", "or_window_into_matrix", "or_table_into_matrix",
                                   "or_matrix_into_matrix", "walk_table_updating_sketch"]})]
 OPNAMES = {0: "new", 1: "update", 2: "row_col", 3: "dump", 4: "validate", 5: "matrix", 6: "flavor_of", 7: "offset_of",
-           8: "estimate", 10: "sk_new", 11: "sk_rc", 12: "sk_item", 13: "sk_dump", 14: "sk_validate", 15: "sk_matrix",
+           8: "estimate", 9: "phase_of", 30: "big", 10: "sk_new", 11: "sk_rc", 12: "sk_item", 13: "sk_dump", 14: "sk_validate", 15: "sk_matrix",
            16: "sk_roundtrip", 20: "un_new", 21: "un_update", 22: "un_state", 23: "un_result"}
 U32MAX = 2**32 - 1
 
@@ -449,9 +455,66 @@ def gen_union(rng, tier, n):
     return out
 
 
+# ------------------------------------------------------------------------------------------------
+# C17 (CPC part): configuration extremes (focus="extremes")
+PHASE_RATIOS = [(1000, 2375), (4, 3), (10, 11), (100, 132), (3, 5), (1000, 1965), (1000, 2275)]
+
+
+def extreme_counts(rng, lgk):
+    """coupon counts around every threshold of determine_flavor / determine_pseudo_phase / determine_correct_offset,
+    the u32 overflow points of the pre-repair code, and random u32 values"""
+    k = 1 << lgk
+    cs = {0, 1, 2, 2**32 - 1, 2**32 - 2, 2**31, 2**27 - 1, 2**27, 2**27 + 1, 2**29 - 1, 2**29, 2**29 + 1,
+          4294967, 4294968, 4294966, 64 * k, 64 * k - 1}
+    for t in (3 * k // 32, k // 2, 27 * k // 8):
+        cs |= {max(0, t - 1), t, t + 1}
+    for a, b in PHASE_RATIOS:
+        t = b * k // a
+        cs |= {max(0, t - 1), t, t + 1, t + 2}
+        cs |= {(b * k + j * 2**32) // a for j in (1, 2)}          # where the u32 product b*k or a*c wraps
+    for w in range(0, 58, 5):
+        t = (19 + 8 * w) * k // 8
+        cs |= {max(0, t - 1), t, t + 1}
+    for _ in range(6):
+        cs.add(rng.getrandbits(32)); cs.add(rng.randrange(0, 64 * k + 1)); cs.add(2**27 + rng.randrange(0, 7 * 2**20))
+    return sorted(c for c in cs if 0 <= c < 2**32)
+
+
+def gen_extremes(rng, tier, n):
+    cases = []
+    # 1. the pure threshold functions for every lg_k
+    for lgk in range(4, 27):
+        ops = []
+        for c in extreme_counts(rng, lgk):
+            ops.append((6, [lgk, c]))
+            ops.append((9, [lgk, c]))
+            if c <= 64 * (1 << lgk) and 8 * c < 475 * (1 << lgk):
+                ops.append((7, [lgk, c]))
+        cases.append(Case(len(cases), [lgk, 9001], ops, tag="cpc-extreme-thresholds-lg%d" % lgk))
+    # 2. scripted large sketches: serialize + deserialize where the k-scaled products used to overflow
+    big = [(4, 40, 3), (5, 0, 17), (12, 10, 100), (16, 3, 77),
+           (21, 0, (1 << 20) + 1000),            # pinned at lg_k 21: 2375 * k >= 2^32
+           (17, 33, 74000),                      # 4.4 M coupons: 1000 * C >= 2^32
+           (22, 0, 3 * (1 << 22) // 32 + 5)]     # hybrid at lg_k 22
+    if tier != "quick":
+        big += [(26, 2, 0),                      # C = 2^27 at lg_k 26: num_coupons << 5 used to wrap to 0
+                (26, 0, 3 * (1 << 26) // 32 + 1), (24, 5, 17), (21, 3, 12345), (20, 4, 99)]
+    for (lgk, full, extra) in big:
+        cases.append(Case(len(cases), [lgk, 9001], [(30, [lgk, full, extra])], tag="cpc-extreme-big-lg%d" % lgk))
+    # 3. the smallest configuration through every window offset, and sparse sketches at lg_k 21 / 26
+    for kind, lgk in [("colfill", 4), ("colfill", 4), ("rtl", 4), ("random", 4), ("sparse_big", 21), ("sparse_big", 26)]:
+        c = gen_case(rng, len(cases), tier, kind, lgk)
+        cases.append(c)
+    if n is not None:
+        cases = cases[:n]
+    return cases
+
+
 def gen(rng, tier, n=None, focus=None):
     if focus == "union":
         return gen_union(rng, tier, n)
+    if focus == "extremes":
+        return gen_extremes(rng, tier, n)
     p = plan(tier)
     if n is not None and n < len(p):
         rng.shuffle(p)
@@ -465,6 +528,8 @@ def gen(rng, tier, n=None, focus=None):
 def nontrivial(case, obs):
     """C05: at least two distinct pairs were offered and the state was observed at least once;
     C06: at least two union updates and one result were taken"""
+    if any(c in (9, 30) for (c, a) in case.ops):
+        return True
     if any(c == 20 for (c, a) in case.ops):
         return sum(1 for (c, a) in case.ops if c == 21) >= 2 and any(c == 23 for (c, a) in case.ops)
     pairs = {tuple(a[-2:]) for (c, a) in case.ops if c in (1, 2)}
